@@ -58,3 +58,12 @@ func Verif_C01_W5_FinalizerUnderRotation() {
 	}
 	vnd.Observe("w5", uint64(absWritten-x.bl.released+100), uint64(loc.BlockIndex+100))
 }
+
+
+// W6: reads and existence checks while another request rotates the block list at any
+// point the schedule allows: no relative block index is carried across a release of
+// the lock (flat and hierarchical; all schedules with at most 2 preemptions).
+func Verif_C01_W6_FlatGetUnderRotation()         { verifScenarioGetUnderRotation(false) }
+func Verif_C01_W6_HierGetUnderRotation()         { verifScenarioGetUnderRotation(true) }
+func Verif_C01_W6_FlatFindMissingUnderRotation() { verifScenarioFindMissingUnderRotation(false) }
+func Verif_C01_W6_HierFindMissingUnderRotation() { verifScenarioFindMissingUnderRotation(true) }
